@@ -86,6 +86,7 @@ package contentstream
 //@     invariant pinv(p) && psame(p, old(p)) && 0 <= i && i <= 2 && p.pos == entry(p.pos) + i && same(result, entry(result)) && depth == entry(depth)
 //@     invariant forall k int :: {p.data[k]} entry(p.pos) <= k && k < p.pos ==> octDigit(p.data[k])
 //@     invariant octalVal == octFold(p.data, entry(p.pos) - 1, i + 1) && octalVal >= 0
+//@     decreases 2 - i
 
 // ISO 32000-1 7.3.4.3 hexadecimal strings: white space is ignored, each pair of hex digits is one byte
 //@ func (*Parser) parseHexString results (obj, err)
